@@ -47,3 +47,12 @@ Theorem C11_alternatives_equal : forall d s p acc egr,
   alternatives (delete_excluded d s) (conn_set (delete_excluded d s) (all_inclusive d s)) p acc egr.
 Proof. intros d s p acc egr H1 H2 H3. exact (proj1 (proj2 (C11_full d s p acc egr H1 H2 H3))). Qed.
 Print Assumptions C11_alternatives_equal.
+
+(* tie to the source: both stable_sort comparators as transit_data.cpp writes them now *)
+From TrV Require Import Proofs.GuardsTie.
+Theorem C11_forward_sort_is_code : forall a b, cmp_args G.gen_fwd_lt a b = fwd_lt a b.
+Proof. exact fwd_lt_tie. Qed.
+Print Assumptions C11_forward_sort_is_code.
+Theorem C11_reverse_sort_is_code : forall a b, cmp_args G.gen_rev_lt a b = rev_lt a b.
+Proof. exact rev_lt_tie. Qed.
+Print Assumptions C11_reverse_sort_is_code.
